@@ -1,13 +1,13 @@
 """C12 configuration for ./check (keys: see checks/propcfg.py)."""
 CFG = {
-    "modules": ["VaxisModel.Props.C12", "VaxisModel.Witness.F112b", "VaxisModel.Witness.F112c"],
+    "modules": ["VaxisModel.Props.C12", "VaxisModel.Witness.F112b", "VaxisModel.Witness.F112c", "VaxisModel.Witness.F112d"],
     "extractors": ["C07", "C04", "C05", "C03", "C12"],
     "drivers": ["C12"],
     "stateful": True,
     "trivial_prefix": ("-", "bytes="),
     "rule": "end to end on the real code: a Vaxis whose console is the real embedded emulator (term.Model without PTY; bytes -> real "
             "ansi parser -> update(); the emulator's replies are the console input); the same frame histories as C01 "
-            "(bounded-exhaustive two-frame histories on 1x4 + random histories with resizes + scenarios lp-semicolon, resize-pen); per frame "
+            "(bounded-exhaustive two-frame histories on 1x4 + random histories with resizes + scenarios lp-semicolon, resize-pen, merge-0..2); per frame "
             "(1) emurender/emurefresh: the emulator snapshot against the application's screen and cursor (oracle on the implementation), "
             "(2) emustate: THE COMPOSITION OF THE MODELS - renderer model (renderFrameC) -> wire (Model.C12Compose.opsOfToks) -> emulator "
             "model (runOps) against the real emulator's full state, (3) emudraw: the cells Draw puts into a host Vaxis window; per session "
@@ -31,7 +31,8 @@ CFG = {
                   "any emulator state the model's replies to sendQueries() are DECRPM 2026->0, 2027->3, 2031->0, CPR 1;1, (OSC 11 iff host "
                   "known), DA1 ?62;4;22c, and C03's model of handleSequence/New() derives exactly sixels + unicodeCore (+osc11) - the renderer "
                   "capabilities are emuCaps; undetected_is_ignored: modes 2026/2031/2048, kitty keyboard CSI u and the OSC 66 probe are "
-                  "no-ops of the emulator model. emu_shows_every_frame: the same after EVERY frame k, and the run over the whole history passes "
+                  "no-ops of the emulator model. emu_shows_application_clustered: the same with the emulator's parser re-segmenting consecutive text "
+                  "(opsOfToksM), for histories in which no two graphemes of a frame merge. emu_shows_every_frame: the same after EVERY frame k, and the run over the whole history passes "
                   "through that state. emu_real_startup_related: the emulator model fed the byte stream the real Vaxis writes at start-up "
                   "(startupAll, compared with the real stream on every run) ends in a start state of the composition theorem (20x6, kernel "
                   "evaluation). facts_device_attributes / facts_cursor_report / facts_decrpm / facts_queries / facts_wire: the reply literals of "
@@ -41,8 +42,11 @@ CFG = {
     "level_note": "Hypotheses (explicit, with non-vacuity examples): C01's FrameInOkC; every grapheme has width <= 2 and, if its width is "
                   "positive, at least one byte; no ';' in hyperlink parameter strings (necessary: known finding F112b, Witness/F112b, replayed on "
                   "the real code by scenario lp-semicolon); cursor shape value <= 65535; the emulator's parser gives a grapheme the width "
-                  "Vaxis' characterWidth gives it and one cell's text is one cluster (parameters; validated per frame by the composition "
-                  "stream). The theorems are over the models; the models are tied to the code per frame by the composition stream (full "
+                  "Vaxis' characterWidth gives it (parameter; validated per frame by the composition stream); no two graphemes of a frame "
+                  "form ONE cluster when written back to back (NoMergeGrid, hypothesis of emu_shows_application_clustered, where the parser's "
+                  "re-segmentation of consecutive text is modelled with parameters merges/cat; necessary: known finding F112d, regional "
+                  "indicators / Hangul jamo / emoji+ZWJ in adjacent cells, Witness/F112d over the models, scenarios merge-0..2 on the real code; "
+                  "render() writes consecutive cells without a CUP - renderer side, C01 builder informed). The theorems are over the models; the models are tied to the code per frame by the composition stream (full "
                   "emulator state), per start-up by the reply-exchange stream, and by the C01/C05/C03 streams. Sixel graphics behind DA1 "
                   "attribute 4 are outside the emulator model (modelled-not-verified). A resize inside a history restarts the theorem at the "
                   "new size (the host resizes the emulator first) - and the emulator does NOT re-establish the start state there: known finding "
